@@ -32,3 +32,7 @@ def run(ctx: Ctx) -> None:
     ctx.do(R.rule_own_so)
     ctx.do(MEMO.rule_memo)
     ctx.do(TR.rule_aff_factor)
+    from kfv.rules import c19 as C19
+    from kfv.rules import coh_rules as CO
+    ctx.do(C19.rule_scheduler)
+    ctx.do(CO.rule_tab_sd)
